@@ -15,155 +15,15 @@ import (
 )
 
 var (
-	utf = refbungee.UTF
-	cat = refbungee.Cat
+	utf         = refbungee.UTF
+	cat         = refbungee.Cat
+	describe    = refbungee.Describe
+	forwardBody = refbungee.ForwardBody
+	baseServers = refbungee.BaseServers
+	playerDefs  = refbungee.PlayerDefs
 )
 
-// ---- proxy states ----
-
-var serverNames = []string{"lobby", "game", "hub"} // hub is never populated: an empty server
-
-func baseServers() []refbungee.Server {
-	return []refbungee.Server{
-		{Name: "lobby", Host: "10.0.1.1", Port: 25565},
-		{Name: "game", Host: "10.0.1.2", Port: 25566},
-		{Name: "hub", Host: "10.0.1.3", Port: 40000}, // port > 32767: ServerIP writes it as a short
-	}
-}
-
-var playerDefs = []refbungee.Player{
-	{Name: "Alice", UUID: "11111111222233334444555555555555", Host: "10.9.0.1", Port: 50001},
-	{Name: "bob", UUID: "aaaaaaaabbbbccccddddeeeeeeeeeeee", Host: "10.9.0.2", Port: 65535},
-	{Name: "Carol", UUID: "0123456789abcdef0123456789abcdef", Host: "192.168.7.3", Port: 1024},
-	{Name: "dave", UUID: "ffffffffffffffffffffffffffffffff", Host: "10.9.0.4", Port: 2},
-}
-
-// states: every assignment of nPlayers players to {none, lobby, game} x protocol era of every
-// player's backend connection (requester: both; others: opposite of the requester so that a response on the
-// wrong connection also shows as a wrong channel id).
-func states(nPlayers int) []refbungee.State {
-	var out []refbungee.State
-	place := []string{"", "lobby", "game"}
-	n := 1
-	for i := 0; i < nPlayers; i++ {
-		n *= len(place)
-	}
-	for code := 0; code < n; code++ {
-		for _, modern := range []bool{true, false} {
-			st := refbungee.State{Servers: baseServers()}
-			c := code
-			for i := 0; i < nPlayers; i++ {
-				p := playerDefs[i]
-				p.Server = place[c%len(place)]
-				c /= len(place)
-				p.Modern = modern == (i%2 == 0)
-				st.Players = append(st.Players, p)
-			}
-			out = append(out, st)
-		}
-	}
-	return out
-}
-
-// ---- request alphabet ----
-
-type request struct {
-	label   string
-	payload []byte
-}
-
-func forwardBody(ch string, n int) []byte {
-	data := make([]byte, n)
-	for i := range data {
-		data[i] = byte(i*37 + 1)
-	}
-	return cat(utf(ch), refbungee.Short(n), data)
-}
-
-func requests(thorough bool) []request {
-	var out []request
-	add := func(label string, parts ...[]byte) { out = append(out, request{label, cat(parts...)}) }
-	players := []string{"Alice", "bob", "Carol", "BOB", "alice", "nobody", "", "ALL", "lobby"}
-	servers := []string{"lobby", "game", "hub", "LOBBY", "nowhere", "", "ALL", "all", "ONLINE", "online", "bob"}
-	chans := []string{"ch", "my:channel", ""}
-	lens := []int{0, 1, 5, 300}
-	if thorough {
-		players = append(players, "dave", "CAROL", "Bob ", "game")
-		servers = append(servers, "Game", "HUB", "All", "Online", "lobby ")
-		chans = append(chans, "BungeeCord", strings.Repeat("c", 70))
-		lens = append(lens, 2, 127, 128, 255, 256, 32767)
-	}
-	for _, sub := range []string{"IP", "UUID", "GetServers", "GetServer"} {
-		add(sub, utf(sub))
-		add(sub+"+trailing", utf(sub), utf("ignored"))
-	}
-	for _, sub := range []string{"IPOther", "UUIDOther", "GetPlayerServer"} {
-		for _, p := range players {
-			add(sub+" "+p, utf(sub), utf(p))
-		}
-	}
-	for _, sub := range []string{"PlayerCount", "PlayerList", "ServerIP", "Connect"} {
-		for _, s := range servers {
-			add(sub+" "+s, utf(sub), utf(s))
-		}
-	}
-	for _, p := range players {
-		for _, s := range servers {
-			add("ConnectOther "+p+" "+s, utf("ConnectOther"), utf(p), utf(s))
-		}
-	}
-	for _, p := range append(append([]string{}, players...), "game") {
-		for _, m := range []string{"hi", "§chi §lthere", ""} {
-			add("Message "+p+" "+m, utf("Message"), utf(p), utf(m))
-			add("KickPlayer "+p+" "+m, utf("KickPlayer"), utf(p), utf(m))
-		}
-		for _, m := range []string{`{"text":"hi"}`, `{"text":""}`, `not json`} {
-			add("MessageRaw "+p+" "+m, utf("MessageRaw"), utf(p), utf(m))
-			add("KickPlayerRaw "+p+" "+m, utf("KickPlayerRaw"), utf(p), utf(m))
-		}
-	}
-	for _, ch := range chans {
-		for _, n := range lens {
-			for _, s := range servers {
-				add(fmt.Sprintf("Forward %s %q %d", s, ch, n), utf("Forward"), utf(s), forwardBody(ch, n))
-			}
-			for _, p := range players {
-				add(fmt.Sprintf("ForwardToPlayer %s %q %d", p, ch, n), utf("ForwardToPlayer"), utf(p), forwardBody(ch, n))
-			}
-		}
-	}
-	// inner length field that is negative as a Java short / disagrees with the data that follows
-	for _, raw := range [][]byte{{0xFF, 0xFF}, {0x80, 0x00}, {0x00, 0x09, 1, 2}, {0x00, 0x01, 1, 2, 3}} {
-		add("Forward ALL badlen "+hex.EncodeToString(raw), utf("Forward"), utf("ALL"), utf("ch"), raw)
-		add("Forward game badlen "+hex.EncodeToString(raw), utf("Forward"), utf("game"), utf("ch"), raw)
-		add("ForwardToPlayer bob badlen "+hex.EncodeToString(raw), utf("ForwardToPlayer"), utf("bob"), utf("ch"), raw)
-	}
-	add("unknown sub-channel", utf("NoSuchSubChannel"), utf("x"))
-	add("empty sub-channel", utf(""))
-	add("empty payload")
-	// every strict prefix of every request above (duplicates removed below)
-	n := len(out)
-	for i := 0; i < n; i++ {
-		p := out[i].payload
-		if len(p) > 80 {
-			continue // long data bodies: the prefixes inside the body add nothing
-		}
-		for k := 0; k < len(p); k++ {
-			out = append(out, request{label: fmt.Sprintf("%s | prefix %d/%d", out[i].label, k, len(p)), payload: p[:k]})
-		}
-	}
-	seen := map[string]bool{}
-	uniq := out[:0]
-	for _, r := range out {
-		k := string(r.payload)
-		if seen[k] {
-			continue
-		}
-		seen[k] = true
-		uniq = append(uniq, r)
-	}
-	return uniq
-}
+type request = refbungee.Request
 
 // ---- running one request on the real responder ----
 
@@ -313,46 +173,27 @@ type fail struct{ key, desc string }
 
 // checkOne evaluates one (state, request) on the real responder against the reference.
 func checkOne(r *vrt.R, st *refbungee.State, requester string, req request, count bool) (fails []fail, want []refbungee.Effect, defined bool) {
-	want, class, defined := refbungee.Eval(st, requester, req.payload)
+	want, class, defined := refbungee.Eval(st, requester, req.Payload)
 	me := st.Players[0]
 	channel := refbungee.LegacyChannel
 	if me.Modern {
 		channel = refbungee.ModernChannel
 	}
-	res := process(st, requester, channel, req.payload)
+	res := process(st, requester, channel, req.Payload)
 	if count {
 		r.Eval(1)
 		r.Class(class)
 	}
 	if res.panicked {
-		return []fail{{scenario(class) + "/panic", fmt.Sprintf("request %q (%s) payload %s\nstate %s\npanic: %v", req.label, class, hex.EncodeToString(req.payload), describe(st), res.panicVal)}}, want, defined
+		return []fail{{scenario(class) + "/panic", fmt.Sprintf("request %q (%s) payload %s\nstate %s\npanic: %v", req.Label, class, hex.EncodeToString(req.Payload), describe(st), res.panicVal)}}, want, defined
 	}
 	if !defined {
 		return nil, want, defined
 	}
 	for _, d := range compare(want, res.got) {
-		fails = append(fails, fail{scenario(class) + "/" + d.kind, fmt.Sprintf("request %q (%s) payload %s\nstate %s\n%s", req.label, class, hex.EncodeToString(req.payload), describe(st), d.desc)})
+		fails = append(fails, fail{scenario(class) + "/" + d.kind, fmt.Sprintf("request %q (%s) payload %s\nstate %s\n%s", req.Label, class, hex.EncodeToString(req.Payload), describe(st), d.desc)})
 	}
 	return fails, want, defined
-}
-
-func describe(st *refbungee.State) string {
-	var sb strings.Builder
-	for i, p := range st.Players {
-		if i > 0 {
-			sb.WriteString(" ")
-		}
-		srv := p.Server
-		if srv == "" {
-			srv = "-"
-		}
-		era := "legacy"
-		if p.Modern {
-			era = "modern"
-		}
-		fmt.Fprintf(&sb, "%s@%s(%s)", p.Name, srv, era)
-	}
-	return sb.String() + " requester=" + st.Players[0].Name
 }
 
 func TestVerif(t *testing.T) {
@@ -366,8 +207,8 @@ func TestVerif(t *testing.T) {
 		if r.Thorough() {
 			nPlayers = 4
 		}
-		reqs := requests(r.Thorough())
-		sts := states(nPlayers)
+		reqs := refbungee.Requests(r.Thorough(), true)
+		sts := refbungee.States(nPlayers)
 		// also: a proxy with a single player and a proxy where the requester is alone on its server
 		single := refbungee.State{Servers: baseServers(), Players: []refbungee.Player{playerDefs[0]}}
 		single.Players[0].Server, single.Players[0].Modern = "lobby", true
@@ -385,14 +226,14 @@ func TestVerif(t *testing.T) {
 			for _, req := range reqs {
 				fails, want, defined := checkOne(r, st, st.Players[0].Name, req, true)
 				if defined && len(want) > 0 {
-					r.Distinct(describe(st) + "|" + string(req.payload))
+					r.Distinct(describe(st) + "|" + string(req.Payload))
 				}
 				for _, f := range fails {
-					r.Violation(f.key, f.desc, replayCase{Mode: "enum", State: *st, Requester: st.Players[0].Name, Payload: hex.EncodeToString(req.payload)})
+					r.Violation(f.key, f.desc, replayCase{Mode: "enum", State: *st, Requester: st.Players[0].Name, Payload: hex.EncodeToString(req.Payload)})
 				}
-				if defined && len(want) > 0 && sampled < 2 && si == r.Shard && strings.HasPrefix(req.label, "Forward ALL") {
+				if defined && len(want) > 0 && sampled < 2 && si == r.Shard && strings.HasPrefix(req.Label, "Forward ALL") {
 					sampled++
-					r.Sample(map[string]any{"state": describe(st), "request": req.label, "expected": refbungee.Canon(want)})
+					r.Sample(map[string]any{"state": describe(st), "request": req.Label, "expected": refbungee.Canon(want)})
 				}
 			}
 		}
@@ -405,7 +246,7 @@ func TestVerif(t *testing.T) {
 // ---- histories: requests that change the proxy state followed by queries ----
 
 func historyOps() []request {
-	mk := func(label string, parts ...[]byte) request { return request{label, cat(parts...)} }
+	mk := func(label string, parts ...[]byte) request { return request{Label: label, Payload: cat(parts...)} }
 	return []request{
 		mk("GetServer", utf("GetServer")),
 		mk("GetPlayerServer bob", utf("GetPlayerServer"), utf("bob")),
@@ -453,7 +294,7 @@ func labels(h []int) []string {
 	ops := historyOps()
 	out := make([]string, len(h))
 	for i, o := range h {
-		out[i] = ops[o].label
+		out[i] = ops[o].Label
 	}
 	return out
 }
@@ -489,7 +330,7 @@ func replay(r *vrt.R, rc *replayCase) {
 		}
 	default:
 		payload, _ := hex.DecodeString(rc.Payload)
-		fails, _, _ := checkOne(r, &rc.State, rc.Requester, request{label: "replay", payload: payload}, true)
+		fails, _, _ := checkOne(r, &rc.State, rc.Requester, request{Label: "replay", Payload: payload}, true)
 		for _, f := range fails {
 			r.Violation(f.key, f.desc, rc)
 		}
